@@ -176,6 +176,20 @@ func init() {
 				k++
 				variants++
 				os.RemoveAll(rootC)
+				// replica D: restarted after every third block (independent of the seed)
+				dv := appdrv.EveryNthRestart(sc, 3, 1, "restart after every third block: "+filepath.Base(file))
+				rootD, _ := os.MkdirTemp(*tmp, "repD-")
+				d, _, err := appdrv.RunOutputs(dv.Sc, "B", rootD, true)
+				if err != nil {
+					return err
+				}
+				pairs += appdrv.PairEvents("C01", k, dv, a, d, sink.Emit)
+				if dv.Differs(a, d) {
+					appdrv.SaveVariant(*vdir, "C01", k, "inproc", sc, dv)
+				}
+				k++
+				variants++
+				os.RemoveAll(rootD)
 			case "iso":
 				vs, a, err := appdrv.IsolationVariants(sc, rootA, rng, *budget, *full)
 				if err != nil {
